@@ -6,7 +6,7 @@ import warnings
 from hypothesis import strategies as st
 
 from .. import convs, history as H, pdugen as g, refcmd, refpdu, ulmodel
-from ..common import Violation, HarnessError, hyp_search, parallel
+from ..common import Violation, HarnessError, hyp_search, parallel, quiet_warnings
 
 LEVEL = 'exploration'
 PROP = 'C05'
@@ -210,7 +210,7 @@ def brief_action(a):
 
 
 def run_dfs(ctx, job):
-    warnings.simplefilter('ignore')
+    quiet_warnings()
     cells = set()
     dfs(ctx, job['role'], job['depth'], job['prefix'], None, cells, job.get('eager', False), job.get('max_pdu', 65536))
     ctx.extra['cells'] = set('Sta%d/Evt%d:%s' % (c[0], c[2], c[1]) for c in cells)
@@ -322,7 +322,7 @@ def run_walks(ctx, n, cells_out=None):
 
 
 def shard_walks(ctx, job):
-    warnings.simplefilter('ignore')
+    quiet_warnings()
     cells = set()
     run_walks(ctx, job['n'], cells)
     ctx.extra['cells'] = set('Sta%d/Evt%d:%s' % (c[0], c[2], c[1]) for c in cells)
@@ -374,7 +374,7 @@ def alphabet_after(role, prefix):
 
 
 def run(ctx):
-    warnings.simplefilter('ignore')
+    quiet_warnings()
     depth = 3 if ctx.thorough else 2
     ctx.rule = ('exhaustive DFS of all histories of up to %d further steps from each of 26 canonical prefixes that '
                 'reach every protocol state (both roles), over the alphabet {7 PDU kinds, complete / first / '
@@ -443,5 +443,5 @@ def run(ctx):
 
 
 def replay(case):
-    warnings.simplefilter('ignore')
+    quiet_warnings()
     run_history(case['role'], case['history'], case.get('max_pdu', 65536))
